@@ -372,6 +372,7 @@ pub struct Outcome {
     panicked_merge: bool,
     read_panics: usize,
     queries: usize,
+    merge_table_calls: usize,
 }
 
 fn vals(v: &[u32]) -> Vec<Value> {
@@ -508,6 +509,12 @@ pub fn run_sorted(c: &SCase) -> Outcome {
                         Ok(None) => catch_unwind(AssertUnwindSafe(|| db.merge_all())),
                         Err(e) => Err(e),
                     }
+                } else if k % 2 == 1 {
+                    // every other plain merge goes through the single-table entry point
+                    // `Database::merge_table` (same map-level effect for a table without
+                    // dependencies; an index-backed read that follows must see the merge)
+                    out.merge_table_calls += 1;
+                    catch_unwind(AssertUnwindSafe(|| db.merge_table(id)))
                 } else {
                     catch_unwind(AssertUnwindSafe(|| db.merge_all()))
                 };
@@ -1053,6 +1060,7 @@ pub fn run(o: &Opts) -> i32 {
         bump(&mut branch_hist, "merge panics (sort-order assertion)".into(), out.panicked_merge as usize);
         bump(&mut branch_hist, "read panics".into(), out.read_panics);
         bump(&mut branch_hist, "one-atom RuleSet queries run".into(), out.queries);
+        bump(&mut branch_hist, "merges through Database::merge_table".into(), out.merge_table_calls);
         if samples.len() < 4 && out.nontrivial && nops < 40 {
             samples.push(format!("{{\"case\":{},\"observed\":{:?}}}", case.json(), out.obs));
         }
